@@ -298,7 +298,11 @@ def checkVertices (c : Case) (A : Flat) (vs : List Pt) (maxAbs : Int) (lower : B
             let dt := detH s.p s.q p
             let sg := if leftSide then dt else -dt
             decide (sg ≥ 0) || (Q.le ⟨dt * dt, s.sqLen⟩ sideTol2)
-          if okSide then go rest else some s!"bad side q={qEff} ratio={ratio} vertex={showH p}"
+          if okSide then go rest else
+            -- a wrong-side vertex within reach of an end point of a line is the cap edge of the two-sided flat-cap buffer
+            let ends := A.lines.flatMap fun l => (l.head?.toList ++ l.getLast?.toList)
+            let atEnd := ends.any fun e => (d2Pt p e).le hi2
+            some s!"bad {if atEnd then "side-end" else "side"} q={qEff} ratio={ratio} vertex={showH p}"
   go vs
 
 /-- single-sided buffer of lines (area result), only while |d| ≤ the shortest segment: half-way into the band on the
